@@ -131,6 +131,16 @@ CHECKS["C07"] = (
     "DESIGN.md section 3, C07",
 )
 
+CHECKS["C13"] = (
+    "bounded-exhaustive enumeration of (output module x location x input property x options) on the implementation; reference-transformer oracle",
+    "Every output module of a small grammar (function or method with 1-3 (thorough 4) parameters, every default-suffix length, self/cls, "
+    "keyword-only tail, optional decoy definitions carrying the same names before the target) x every output location x 5 input properties "
+    "x wrap template x --input-eval is run through sync_properties; the resulting AST must equal a reference transformer's result modulo "
+    "the selected node's own default, and the input file must be unchanged.",
+    "reference transformer in mc/checks/c13.py; comparison on ASTs because the command re-renders the file through black",
+    "DESIGN.md section 3, C13",
+)
+
 PENDING_REASON = "check not built yet in this revision (planned, see DESIGN.md section 3); no claim is made"
 
 
